@@ -63,6 +63,7 @@ def main (args : List String) : IO UInt32 := do
   | ["fifo"] => loopState stdin stdout Drv.Misc.fStep (SV.Fifo.RCache.init 2 1); return 0
   | ["timecache"] => loopState stdin stdout Drv.Misc.tStep {}; return 0
   | ["concp"] => loopState stdin stdout Drv.Conc.step {}; return 0
+  | ["concclose"] => loopState stdin stdout Drv.Conc.step {}; return 0
   | ["crash"] => loopState stdin stdout Drv.Crash.step {}; return 0
   | ["conc14"] => loopStateless stdin stdout (fun toks => match toks with | "begin" :: _ => "ok" | ["stress", tg, seed, _, _, procs] => "ran:" ++ tg ++ ":" ++ seed ++ ":" ++ procs | _ => "bad-op"); return 0
   | ["shard"] => loopStateless stdin stdout shardStep; return 0
